@@ -324,12 +324,22 @@ class _PFShim:
 META = ("d/_metadata", "d/_common_metadata")
 
 
+# ids of the part files the existing dataset references (lattice): consecutive, with gaps (after remove_row_groups /
+# overwrite), and with more than ten parts (multi-digit ids)
+OLD_IDS = [int(x) for x in os.environ.get("VERIF_OLD_IDS", "").split(",") if x != ""]
+
+
+def _old_ids(n_old):
+    return OLD_IDS if OLD_IDS else list(range(n_old))
+
+
 def _run_append(n_old, r0, b0, r1, b1, nfr, fail_k, feet):
-    existing = {"d/part.%d.parquet" % i: 100 + i for i in range(n_old)}
+    ids = _old_ids(n_old)
+    existing = {"d/part.%d.parquet" % i: 100 + i for i in ids}
     existing["d/_metadata"] = 50
     existing["d/_common_metadata"] = 40
     fs = SymFS(existing, fail_k)
-    old = [_rg(10 + i, 90 + i, "part.%d.parquet" % i) for i in range(n_old)]
+    old = [_rg(10 + i, 90 + i, "part.%d.parquet" % i) for i in ids]
     fmd = _fmd(old)
     pf = _PFShim(fmd, {}, fs)
     frames = [Frame(r0, b0, tag=1), Frame(r1, b1, tag=2)][:nfr]
@@ -372,21 +382,88 @@ def h_multi_append(n_old: int, r0: int, b0: int, r1: int, b1: int, nfr: int, f0:
     new_parts = [p for p in opened if p not in META]
     if any(p in fs.existing for p in new_parts) or len(set(new_parts)) != len(new_parts):
         return False          # an existing data file was opened for writing / a name was reused
-    if new_parts != ["d/part.%d.parquet" % (n_old + i) for i in range(nfr)]:
+    ids = _old_ids(n_old)
+    if len(new_parts) != nfr:
         return False
     if opened[len(new_parts):] != list(META):
         return False
-    want = [90 + i for i in range(n_old)] + [fr.tag for fr in frames]
+    want = [90 + i for i in ids] + [fr.tag for fr in frames]
     paths = [rg.columns[0].file_path for rg in fmd.row_groups]
-    want_paths = ["part.%d.parquet" % i for i in range(n_old + nfr)]
-    rows = sum(10 + i for i in range(n_old)) + sum(fr.rows for fr in frames)
+    want_paths = ["part.%d.parquet" % i for i in ids] + [p[2:] for p in new_parts]
+    rows = sum(10 + i for i in ids) + sum(fr.rows for fr in frames)
     # the _metadata footer (first footer written in the metadata phase) was serialised from old ++ new
     meta_snaps = [s for s in SNAP[0] if s[2] == "d/_metadata"]
     return (paths == want_paths and meta_snaps == [(want, rows, "d/_metadata")] and fmd.num_rows == rows)
 
 
-def replay_h_multi_append(**kw):
-    return None, "no concrete driver"
+def replay_h_multi_append(n_old, r0, b0, r1, b1, nfr, **kw):
+    """real hive dataset whose part files carry the ids of the lattice point, then a real append"""
+    import hashlib, shutil, tempfile
+    import pandas as pd
+    import fastparquet
+    ids = _old_ids(n_old)
+    d = tempfile.mkdtemp(prefix="c07-")
+    try:
+        dn = os.path.join(d, "ds")
+        top = (max(ids) + 1) if ids else 1
+        df = pd.DataFrame({"a": list(range(2 * top))})
+        fastparquet.write(dn, df, file_scheme="hive", row_group_offsets=list(range(0, 2 * top, 2)))
+        pf = fastparquet.ParquetFile(dn)
+        drop = [rg for i, rg in enumerate(pf.row_groups) if i not in ids]
+        if drop and len(drop) < len(pf.row_groups):
+            pf.remove_row_groups(drop)
+        elif drop:
+            return None, "cannot build an empty dataset with the concrete driver"
+        old = fastparquet.ParquetFile(dn).to_pandas()
+        before = {p: hashlib.sha1(open(os.path.join(dn, p), "rb").read()).hexdigest()
+                  for p in os.listdir(dn) if p.startswith("part.")}
+        new = pd.DataFrame({"a": list(range(1000, 1000 + 2 * nfr))})
+        if nfr:
+            fastparquet.write(dn, new, file_scheme="hive", append=True, row_group_offsets=list(range(0, 2 * nfr, 2)))
+        for p, h in before.items():
+            fp = os.path.join(dn, p)
+            if not os.path.exists(fp) or hashlib.sha1(open(fp, "rb").read()).hexdigest() != h:
+                return True, "append to a dataset with part ids %r rewrote the existing data file %s" % (ids, p)
+        try:
+            out = fastparquet.ParquetFile(dn).to_pandas()
+        except Exception as ex:
+            return True, "dataset with part ids %r unreadable after append: %s" % (ids, ex)
+        want = list(old["a"]) + (list(new["a"]) if nfr else [])
+        if list(out["a"]) != want:
+            return True, "after append the dataset with part ids %r reads %d rows, expected %d" % (ids, len(out),
+                                                                                                  len(want))
+        return False, "append left existing files untouched and added rows at the end"
+    finally:
+        shutil.rmtree(d, ignore_errors=True)
+
+
+PATHS = ["part.%d.parquet" % i for i in range(0, 130)]
+
+
+def h_find_max_part(a: int, b: int, c: int, pa: bool, pb: bool, pc: bool, swap: bool) -> bool:
+    """
+    pre: 8 <= a <= 9 and 10 <= b <= 11 and 99 <= c <= 100
+    post: __return__
+    """
+    # part ids of different digit counts, any subset present, in either order: the next part number exceeds them all
+    ids = [i for i, p in ((a, pa), (b, pb), (c, pc)) if p]
+    if swap:
+        ids.reverse()
+    rgs = [_rg(1, 1, PATHS[i]) for i in ids]
+    nxt = writer.find_max_part(rgs)
+    return all(nxt > i for i in ids) and (nxt == 0 or nxt - 1 in ids)
+
+
+def replay_h_find_max_part(a, b, c, pa, pb, pc, swap):
+    ids = [i for i, p in ((a, pa), (b, pb), (c, pc)) if p]
+    if swap:
+        ids.reverse()
+    import fastparquet.writer as w
+    nxt = w.find_max_part([_rg(1, 1, "part.%d.parquet" % i) for i in ids])
+    if not all(nxt > i for i in ids):
+        return True, "find_max_part over part ids %r gives %d: an existing part file would be overwritten by the " \
+                     "next append" % (ids, nxt)
+    return False, "fresh"
 
 
 def h_multi_append_fault(n_old: int, r0: int, b0: int, r1: int, b1: int, nfr: int, fail_k: int) -> bool:
